@@ -1,5 +1,95 @@
 import Reduino.Lemmas.Field
 import Reduino.Fw.Lcd
 /- helper lemmas for Props/C17.lean -/
+set_option linter.unusedSectionVars false
 namespace Reduino.Lemmas.C17
+open Reduino Reduino.Lcd
+
+/-! ## cell matrix: `putRow`, `printAt`, `setRow` element-wise -/
+
+@[simp] theorem length_putRow (row : Row) (c : Int) (s : List Char) : (putRow row c s).length = row.length := by
+  simp [putRow]
+
+theorem getElem_putRow (row : Row) (c : Int) (s : List Char) (i : Nat) (h : i < row.length) :
+    (putRow row c s)[i]'(by simpa using h) =
+      if 0 ≤ Int.ofNat i - c ∧ Int.ofNat i - c < Int.ofNat s.length then s.getD (Int.ofNat i - c).toNat row[i]
+      else row[i] := by
+  simp [putRow]
+
+@[simp] theorem length_printAt (g : Grid) (c r : Int) (s : List Char) : (printAt g c r s).length = g.length := by
+  simp [printAt]
+
+theorem getElem_printAt (g : Grid) (c r : Int) (s : List Char) (i : Nat) (h : i < g.length) :
+    (printAt g c r s)[i]'(by simpa using h) = if Int.ofNat i = r then putRow g[i] c s else g[i] := by
+  simp [printAt]
+
+@[simp] theorem length_setRow (g : Grid) (r : Nat) (row : Row) : (Host.setRow g r row).length = g.length := by
+  simp [Host.setRow]
+
+theorem getElem_setRow (g : Grid) (r : Nat) (row : Row) (i : Nat) (h : i < g.length) :
+    (Host.setRow g r row)[i]'(by simpa using h) = if i = r then row else g[i] := by
+  simp [Host.setRow]
+
+theorem printAt_eq_setRow (g : Grid) (c r : Int) (s : List Char) (hr : 0 ≤ r) :
+    printAt g c r s = Host.setRow g r.toNat (putRow (g.getD r.toNat []) c s) := by
+  apply List.ext_getElem
+  · simp
+  · intro i h1 h2
+    have hi : i < g.length := by simpa using h1
+    rw [getElem_printAt g c r s i hi, getElem_setRow g _ _ i hi]
+    by_cases h : Int.ofNat i = r
+    · have h' : i = r.toNat := by rw [Int.ofNat_eq_natCast] at h; omega
+      rw [if_pos h, if_pos h']
+      subst h'
+      simp [List.getD, hi]
+    · have h' : ¬ i = r.toNat := by rw [Int.ofNat_eq_natCast] at h; omega
+      rw [if_neg h, if_neg h']
+
+theorem putRow_blank (row : Row) (cols : Nat) (h : row.length = cols) :
+    putRow row 0 (blankRow cols) = blankRow cols := by
+  apply List.ext_getElem
+  · simp [blankRow, h]
+  · intro i h1 h2
+    have hi : i < row.length := by simpa using h1
+    rw [getElem_putRow row 0 _ i hi]
+    have : 0 ≤ Int.ofNat i - 0 ∧ Int.ofNat i - 0 < Int.ofNat (blankRow cols).length := by
+      simp only [blankRow, List.length_replicate, Int.ofNat_eq_natCast]; omega
+    rw [if_pos this]
+    simp only [blankRow, Int.ofNat_eq_natCast, Int.sub_zero, Int.toNat_natCast, List.getElem_replicate]
+    rw [List.getD_eq_getElem?_getD, List.getElem?_replicate, if_pos (by omega)]; rfl
+
+theorem getD_setRow (g : Grid) (r : Nat) (row : Row) (i : Nat) :
+    (Host.setRow g r row).getD i [] = if i = r ∧ i < g.length then row else g.getD i [] := by
+  by_cases hi : i < g.length
+  · have : i < (Host.setRow g r row).length := by simpa using hi
+    simp only [List.getD, List.getElem?_eq_getElem this, List.getElem?_eq_getElem hi, Option.getD_some,
+      getElem_setRow g r row i hi, hi, and_true]
+  · have : ¬ i < (Host.setRow g r row).length := by simpa using hi
+    simp [List.getD, hi]
+
+theorem getD_printAt (g : Grid) (c r : Int) (s : List Char) (i : Nat) :
+    (printAt g c r s).getD i [] = if Int.ofNat i = r then putRow (g.getD i []) c s else g.getD i [] := by
+  by_cases hi : i < g.length
+  · have : i < (printAt g c r s).length := by simpa using hi
+    simp only [List.getD, List.getElem?_eq_getElem this, List.getElem?_eq_getElem hi, Option.getD_some,
+      getElem_printAt g c r s i hi]
+  · have : ¬ i < (printAt g c r s).length := by simpa using hi
+    simp [List.getD, hi, putRow]
+
+/-- shape preservation -/
+theorem shaped_setRow (g : Grid) (cols : Nat) (r : Nat) (row : Row) (hg : ∀ x ∈ g, x.length = cols)
+    (hrow : row.length = cols) : ∀ x ∈ Host.setRow g r row, x.length = cols := by
+  intro x hx
+  obtain ⟨i, hi, rfl⟩ := List.mem_iff_getElem.mp hx
+  have hi' : i < g.length := by simpa using hi
+  rw [getElem_setRow g r row i hi']
+  split
+  · exact hrow
+  · exact hg _ (List.getElem_mem hi')
+
+theorem length_getD_of_shaped (g : Grid) (cols : Nat) (r : Nat) (hg : ∀ x ∈ g, x.length = cols) (hr : r < g.length) :
+    (g.getD r []).length = cols := by
+  simp only [List.getD, List.getElem?_eq_getElem hr, Option.getD_some]
+  exact hg _ (List.getElem_mem hr)
+
 end Reduino.Lemmas.C17
